@@ -15,6 +15,7 @@ Variable rank : qkey -> nat.
 Hypothesis Hrank : calls_below prog rank.
 Variable NF : nat.
 Hypothesis Hbound : forall q, (rank q < NF)%nat.
+Variable fm : bool.
 Variable H : hist.
 Variable D : dhist.
 Notation E := (E prog NF H).
@@ -22,8 +23,11 @@ Notation tr := (tr prog NF H).
 Notation envat := (envat prog NF H).
 Notation durge := (durge prog NF H D).
 Notation clos := (clos prog NF H).
-Notation dmemo_ok := (dmemo_ok prog NF H D).
-Notation DInv := (DInv prog NF H D).
+Notation dmemo_ok := (dmemo_ok prog NF fm H D).
+Notation DInv := (DInv prog NF fm H D).
+Notation dext := (dext prog NF H D).
+Notation obs_ok := (obs_ok prog NF H D).
+Notation good := (good prog NF fm H D).
 Notation dtouch_below := (dtouch_below rank).
 Notation dallowed := (PInv.dallowed).
 Notation stack_ok := (stack_ok rank).
@@ -39,6 +43,8 @@ Proof.
   intros (Hr & Hi & Hce & Hm) Hp Hin. constructor; auto.
   - intros q m Hq _ _. rewrite Hm. exact Hq.
   - intros q m Hq Hv. exists m. rewrite Hm. split; [exact Hq|]. split; [exact Hv | lia].
+  - intros q m' Hq _. rewrite <- Hm. exact Hq.
+  - intros g w k Ho. apply (obs_ok_same prog NF H D s s'); assumption.
 Qed.
 
 Lemma dtouch_of_core_eq s s' k : dcore_eq s s' -> dtouch_below s s' k.
@@ -66,7 +72,7 @@ Lemma emit_ok e s s0 (Q : unit -> db -> Prop) :
 Proof.
   intros HI He HQ. apply wp_emit.
   assert (Hce : dcore_eq s (set_log s (e :: d_log s))) by apply dcore_eq_log.
-  apply HQ; try reflexivity; [exact Hce | apply (DInv_core_eq prog NF H D s); assumption |].
+  apply HQ; try reflexivity; [exact Hce | apply (DInv_core_eq prog NF fm H D s); assumption |].
   apply dext_of_core_eq; [exact Hce | reflexivity | auto].
 Qed.
 
@@ -76,7 +82,7 @@ Qed.
 Lemma mark_verified_ok q m s s0 :
   dext s0 s ->
   DInv s -> d_memo s q = Some m ->
-  (forall s1, dcore_eq s s1 -> DInv s1 ->
+  (forall s1, dcore_eq s s1 -> DInv s1 -> dext s s1 ->
      DInv (store s1 q (reverify m (cur s))) /\ dext s1 (store s1 q (reverify m (cur s))) /\
      E (cur s) q = E (m_verified m) q) ->
   wp (mark_verified q m)
@@ -93,7 +99,7 @@ Proof.
   set (m' := {| m_val := m_val m; m_verified := cur s; m_changed := m_changed m; m_dur := m_dur m;
                m_untracked := m_untracked m; m_edges := m_edges m |}).
   change (set_memo s1 _) with (store s1 q m').
-  destruct (Hjust s1 Hce HI1) as (HI2 & Hext & HE).
+  destruct (Hjust s1 Hce HI1 He01) as (HI2 & Hext & HE).
   change (reverify m (cur s)) with m' in HI2, Hext.
   split; [reflexivity|]. split; [exact HI2|]. split.
   { eapply dext_trans; [exact He01 | exact Hext]. }
@@ -109,13 +115,14 @@ Lemma shallow_cases s m :
   match shallow_verify s m with
   | ShVerified => m_verified m = cur s
   | ShHigher => m_verified m <> cur s /\ lcs s (m_dur m) <= m_verified m
-  | ShNo => m_verified m <> cur s
+  | ShNo => m_verified m <> cur s /\ ~ lcs s (m_dur m) <= m_verified m
   end.
 Proof.
   unfold shallow_verify.
   destruct (N.eqb_spec (m_verified m) (cur s)) as [Heq | Hne]; [exact Heq|].
-  destruct (shallow_ok (last_changed (d_revs s) (m_dur m)) (m_verified m)) eqn:Hsh; [|exact Hne].
-  split; [exact Hne|]. apply shallow_ok_spec in Hsh. exact Hsh.
+  destruct (shallow_ok (last_changed (d_revs s) (m_dur m)) (m_verified m)) eqn:Hsh.
+  - split; [exact Hne|]. apply shallow_ok_spec in Hsh. exact Hsh.
+  - split; [exact Hne|]. intros Hle. apply shallow_ok_spec in Hle. unfold lcs in Hle. congruence.
 Qed.
 
 Definition verified_now (s0 : db) (q : qkey) (m : memo) (m' : memo) (s' : db) : Prop :=
@@ -135,13 +142,13 @@ Proof.
     split; [exact HI|]. split; [apply dext_refl|]. split; [apply dtouch_refl|].
     conj; auto.
   - destruct Hc as [_ Hlc].
-    assert (Hjust : forall s1, dcore_eq s s1 -> DInv s1 ->
+    assert (Hjust : forall s1, dcore_eq s s1 -> DInv s1 -> dext s s1 ->
               DInv (store s1 q (reverify m (cur s))) /\ dext s1 (store s1 q (reverify m (cur s))) /\
               E (cur s) q = E (m_verified m) q).
-    { intros s1 Hce HI1. pose proof (dcore_eq_cur _ _ Hce) as Hc1.
+    { intros s1 Hce HI1 _. pose proof (dcore_eq_cur _ _ Hce) as Hc1.
       destruct Hce as (Hr & _ & _ & Hmm).
       rewrite <- Hc1.
-      apply (shortcut_ok prog rank Hrank NF Hbound H D s1 q m HI1).
+      apply (shortcut_ok prog rank Hrank NF Hbound fm H D s1 q m HI1).
       - rewrite Hmm. exact Hm.
       - unfold lcs in *. rewrite Hr. exact Hlc. }
     pose proof (mark_verified_ok q m s s0 He0 HI Hm Hjust) as Hmv.
@@ -171,29 +178,23 @@ Definition mca_spec (L : lower) (n : nat) : Prop :=
 
 Lemma XP_trans s0 s1 p s' : dext s0 s1 -> XP s1 p s' -> XP s0 p s'.
 Proof.
-  intros He (Ha & HI & He'). split; [apply (dallowed_ext s0 s1); [apply (ext_pcell _ _ He) | apply (ext_init _ _ He) | exact Ha]|].
+  intros He (Ha & HI & He'). split; [apply (dallowed_ext s0 s1); [apply (ext_pcell _ _ _ _ _ _ He) | apply (ext_init _ _ _ _ _ _ He) | exact Ha]|].
   split; [exact HI|].
   eapply dext_trans; eassumption.
 Qed.
 
 (* ---------------------------------------------------------------- deep verification *)
 (* the walker q's memo m stays in the table during the walk (the walk only touches lower
-   ranks), and m observes every callee it has an edge to *)
-Lemma walk_edges_ok L n q m (HM : mca_spec L n) : forall es s,
-  DInv s -> d_memo s q = Some m ->
-  (forall d, In (EQ d) es -> (rank d < n)%nat /\ (rank d < rank q)%nat /\
-                             In (RQ d) (tr (m_verified m) q)) ->
+   ranks); s0 is the state the walk started in *)
+Lemma walk_edges_ok L n q m s0 (HM : mca_spec L n) : forall es s,
+  DInv s -> dext s0 s -> d_memo s q = Some m ->
+  (forall d, In (EQ d) es -> (rank d < n)%nat /\ (rank d < rank q)%nat) ->
   (forall p, In p (d_stack s) -> (rank q <= rank p)%nat) ->
   wp (walk_edges L es (m_verified m))
      (fun b s' => DInv s' /\ dext s s' /\ dtouch_below s s' (rank q) /\ d_stack s' = d_stack s /\
-        (b = false -> forall e, In e es ->
-           match e with
-           | EIn i => f_changed (d_in s i) <= m_verified m
-           | EQ d => E (m_verified m) d = E (cur s) d /\ durge (cur s) (m_dur m) d /\
-                     exists md, d_memo s' d = Some md /\ m_verified md = cur s /\ m_dur m <= m_dur md
-           end)) (XP s) s.
+        (b = false -> forall e, In e es -> leaf_ok prog NF H D s0 s' q m e)) (XP s) s.
 Proof.
-  induction es as [|e es IH]; intros s HI Hm Hes Hst; cbn [walk_edges].
+  induction es as [|e es IH]; intros s HI He0 Hm Hes Hst; cbn [walk_edges].
   - apply wp_ret. split; [exact HI|]. split; [apply dext_refl|]. split; [apply dtouch_refl|].
     split; [reflexivity|]. intros _ e [].
   - destruct e as [i | d].
@@ -202,45 +203,50 @@ Proof.
       * apply wp_ret. split; [exact HI|]. split; [apply dext_refl|]. split; [apply dtouch_refl|].
         split; [reflexivity|]. discriminate.
       * apply changed_after_false in Hca.
-        eapply wp_conseq; [apply (IH s HI Hm) | |intros; assumption].
+        eapply wp_conseq; [apply (IH s HI He0 Hm) | |intros; assumption].
         -- intros d Hd. apply Hes. right; exact Hd.
         -- exact Hst.
         -- intros b s' (HI' & He & Ht & Hs & Hb). conj; auto.
-           intros Hbf e [<- | He']; [exact Hca | apply Hb; assumption].
-    + destruct (Hes d (or_introl eq_refl)) as (Hdn & Hdq & Hind).
+           intros Hbf e [<- | He']; [|apply Hb; assumption].
+           cbn. rewrite (ext_in _ _ _ _ _ _ He). exact Hca.
+    + destruct (Hes d (or_introl eq_refl)) as (Hdn & Hdq).
       apply wp_bind.
       eapply wp_conseq; [apply (HM d (m_verified m) s Hdn HI) | |intros; assumption].
       { intros p Hp. specialize (Hst p Hp). lia. }
       intros c s1 (HI1 & He1 & Ht1 & Hs1 & Hc).
-      pose proof (dext_cur _ _ He1) as Hcur1.
+      pose proof (dext_cur _ _ _ _ _ _ He1) as Hcur1.
       assert (Hm1 : d_memo s1 q = Some m) by (rewrite (Ht1 q) by lia; exact Hm).
+      assert (He01 : dext s0 s1) by (eapply dext_trans; eassumption).
       destruct c.
       * apply wp_ret. split; [exact HI1|]. split; [exact He1|]. split.
         { eapply dtouch_trans with (k1 := S (rank d)) (k2 := rank q);
             [lia | lia | exact Ht1 | apply dtouch_refl]. }
         split; [exact Hs1|]. discriminate.
       * destruct (Hc eq_refl) as (md & Hmd & Hvd & Hcd).
-        pose proof (inv_memo _ _ _ _ _ HI1 q m Hm1) as Hok.
-        pose proof (inv_memo _ _ _ _ _ HI1 d md Hmd) as Hokd.
-        destruct (mo_obs _ _ _ _ _ _ _ Hok d md (clos_one _ _ _ _ _ _ Hind) Hmd) as [HEd Hdd]; [left; exact Hcd|].
-        rewrite Hvd in HEd.
-        assert (Hdgd : durge (cur s) (m_dur m) d).
-        { eapply durge_mono; [exact Hdd|]. rewrite <- Hvd. apply (mo_durge _ _ _ _ _ _ _ Hokd). }
-        eapply wp_conseq; [apply (IH s1 HI1 Hm1) | |].
+        pose proof (inv_memo _ _ _ _ _ _ HI1 q m Hm1) as Hok.
+        pose proof (inv_memo _ _ _ _ _ _ HI1 d md Hmd) as Hokd.
+        eapply wp_conseq; [apply (IH s1 HI1 He01 Hm1) | |].
         -- intros d' Hd'. apply (Hes d' (or_intror Hd')).
         -- rewrite Hs1. exact Hst.
         -- intros b s' (HI' & He & Ht & Hs & Hb).
+           pose proof (dext_cur _ _ _ _ _ _ He) as Hcur'.
            split; [exact HI'|]. split; [eapply dext_trans; eassumption|]. split.
            { eapply dtouch_trans with (k1 := S (rank d)) (k2 := rank q);
                [lia | lia | exact Ht1 | exact Ht]. }
            split; [congruence|].
-           intros Hbf e [<- | He'].
-           ++ split; [exact HEd|]. split; [exact Hdgd|].
-              destruct (ext_vcur _ _ He d md Hmd) as (md' & Hmd' & Hvd' & Hdd'); [congruence|].
-              exists md'. split; [exact Hmd'|]. split; [congruence | lia].
-           ++ specialize (Hb Hbf e He'). destruct e as [i | d'].
-              ** rewrite (ext_in _ _ He1) in Hb. exact Hb.
-              ** rewrite Hcur1 in Hb. exact Hb.
+           intros Hbf e [<- | He']; [|apply (Hb Hbf e He')].
+           destruct (ext_vcur _ _ _ _ _ _ He d md Hmd) as (md' & Hmd' & Hvd' & Hdd'); [congruence|].
+           cbn. split; [exists md'; split; [exact Hmd' | congruence]|]. split.
+           ++ intros g w k Hog Hvw Hcl.
+              pose proof (ext_obs _ _ _ _ _ _ He01 g w k Hog) as Hog1.
+              destruct (ob_obs _ _ _ _ _ _ _ _ Hog1 d md Hcl Hmd) as [A _]; [left; lia|].
+              rewrite A. congruence.
+           ++ intros Hcl.
+              destruct (mo_obs _ _ _ _ _ _ _ _ Hok d md Hcl Hmd) as [_ Hdd]; [left; exact Hcd|].
+              split.
+              ** rewrite Hcur', Hcur1, <- Hvd. eapply durge_mono; [exact Hdd|].
+                 apply (mo_durge _ _ _ _ _ _ _ _ Hokd).
+              ** exists md'. split; [exact Hmd' | lia].
         -- intros p s' Hx. eapply XP_trans; eassumption.
 Qed.
 
@@ -251,22 +257,29 @@ Definition verify_post (s0 : db) (q : qkey) (m : memo) (r : bool * memo) (s' : d
 
 Lemma deep_verify_ok L n q m s (HM : mca_spec L n) :
   (rank q <= n)%nat -> DInv s -> d_memo s q = Some m ->
+  ~ lcs s (m_dur m) <= m_verified m ->
   (forall p, In p (d_stack s) -> (rank q <= rank p)%nat) ->
   wp (deep_verify L q m) (verify_post s q m) (XP s) s.
 Proof.
-  intros Hn HI Hm Hst. unfold deep_verify.
-  pose proof (inv_memo _ _ _ _ _ HI q m Hm) as Hok.
+  intros Hn HI Hm Hnsh Hst. unfold deep_verify.
+  pose proof (inv_memo _ _ _ _ _ _ HI q m Hm) as Hok.
+  (* the short-cut failed: in flat mode the memo's durability is LOW *)
+  assert (Hflat : m_dur m = 0 \/ forall d, In (RQ d) (tr (m_verified m) q) -> In (EQ d) (m_edges m)).
+  { destruct (mo_flat _ _ _ _ _ _ _ _ Hok) as [Hf | Hdir]; [|right; exact Hdir].
+    left. destruct (N.eq_dec (m_dur m) 0) as [Hz | Hnz]; [exact Hz|].
+    exfalso. apply Hnsh.
+    pose proof (inv_lowrev _ _ _ _ _ _ HI Hf (m_dur m)) as Hl.
+    pose proof (mo_order _ _ _ _ _ _ _ _ Hok). lia. }
   destruct (m_untracked m) eqn:Hu.
   - apply wp_ret. unfold verify_post; cbn [fst snd].
     split; [exact HI|]. split; [apply dext_refl|]. split; [apply dtouch_refl|].
     split; [reflexivity|]. split; [discriminate | reflexivity].
   - apply wp_bind.
-    eapply wp_conseq; [apply (walk_edges_ok L n q m HM (m_edges m) s HI Hm) | |intros; assumption].
-    { intros d Hd. pose proof (mo_edges_q _ _ _ _ _ _ _ Hok d Hd) as Hin.
-      pose proof (tr_calls prog rank Hrank NF H _ _ _ Hin). conj; [lia | lia | exact Hin]. }
+    eapply wp_conseq; [apply (walk_edges_ok L n q m s HM (m_edges m) s HI (dext_refl _ _ _ _ s) Hm) | |intros; assumption].
+    { intros d Hd. pose proof (reach_rank prog rank Hrank q d (mo_edges_reach _ _ _ _ _ _ _ _ Hok d Hd)). lia. }
     { exact Hst. }
     intros c s1 (HI1 & He1 & Ht1 & Hs1 & Hc).
-    pose proof (dext_cur _ _ He1) as Hcur1.
+    pose proof (dext_cur _ _ _ _ _ _ He1) as Hcur1.
     assert (Hm1 : d_memo s1 q = Some m) by (rewrite (Ht1 q) by lia; exact Hm).
     destruct c.
     + apply wp_ret. unfold verify_post; cbn [fst snd].
@@ -276,16 +289,17 @@ Proof.
       split; [exact Hs1|]. split; [discriminate|]. intros _. congruence.
     + specialize (Hc eq_refl).
       apply wp_bind.
-      assert (Hjust : forall s2, dcore_eq s1 s2 -> DInv s2 ->
+      assert (Hjust : forall s2, dcore_eq s1 s2 -> DInv s2 -> dext s1 s2 ->
                 DInv (store s2 q (reverify m (cur s1))) /\ dext s2 (store s2 q (reverify m (cur s1))) /\
                 E (cur s1) q = E (m_verified m) q).
-      { intros s2 Hce HI2. pose proof (dcore_eq_cur _ _ Hce) as Hc2.
+      { intros s2 Hce HI2 He12. pose proof (dcore_eq_cur _ _ Hce) as Hc2.
         destruct Hce as (Hr2 & Hi2 & _ & Hmm2).
         rewrite <- Hc2.
-        apply (deep_ok prog rank Hrank NF Hbound H D s2 q m HI2); [rewrite Hmm2; exact Hm1 | exact Hu|].
-        intros e He. specialize (Hc e He). destruct e as [i | d].
-        - rewrite Hi2, (ext_in _ _ He1). exact Hc.
-        - rewrite Hc2, Hcur1, Hmm2. exact Hc. }
+        apply (deep_ok prog rank Hrank NF Hbound fm H D s s2 q m HI HI2);
+          [eapply dext_trans; eassumption | exact Hm | rewrite Hmm2; exact Hm1 | exact Hu | exact Hflat|].
+        intros e He. specialize (Hc e He). destruct e as [i | d]; cbn in Hc |- *.
+        - rewrite Hi2. exact Hc.
+        - rewrite Hc2, Hmm2. exact Hc. }
       eapply wp_conseq; [apply (mark_verified_ok q m s1 s He1 HI1 Hm1 Hjust) | |intros; assumption].
       intros m' s2 (-> & HI2 & He2 & Ht2 & Hs2 & Hm2 & HE).
       apply wp_ret. unfold verify_post; cbn [fst snd].
@@ -309,16 +323,17 @@ Proof.
   apply wp_bind, wp_get.
   destruct (shallow_verify s m) eqn:Hsh.
   - apply wp_bind.
-    eapply wp_conseq; [apply (update_shallow_ok q m s ShVerified s (dext_refl s) HI Hm Hsh); discriminate | |intros; assumption].
+    eapply wp_conseq; [apply (update_shallow_ok q m s ShVerified s (dext_refl _ _ _ _ s) HI Hm Hsh); discriminate | |intros; assumption].
     intros m' s' Hv. apply wp_ret. unfold verify_post; cbn [fst snd].
     pose proof Hv as (A & B & C & D0 & _).
     conj; auto. discriminate.
   - apply wp_bind.
-    eapply wp_conseq; [apply (update_shallow_ok q m s ShHigher s (dext_refl s) HI Hm Hsh); discriminate | |intros; assumption].
+    eapply wp_conseq; [apply (update_shallow_ok q m s ShHigher s (dext_refl _ _ _ _ s) HI Hm Hsh); discriminate | |intros; assumption].
     intros m' s' Hv. apply wp_ret. unfold verify_post; cbn [fst snd].
     pose proof Hv as (A & B & C & D0 & _).
     conj; auto. discriminate.
-  - apply (deep_verify_ok L n q m s HM Hn HI Hm Hst).
+  - pose proof (shallow_cases s m) as Hsc. rewrite Hsh in Hsc.
+    apply (deep_verify_ok L n q m s HM Hn HI Hm (proj2 Hsc) Hst).
 Qed.
 
 (* ---------------------------------------------------------------- frames while running a body *)
@@ -335,14 +350,14 @@ Qed.
 
 Lemma covers_ext s s' pre fr : dext s s' -> covers s pre fr -> covers s' pre fr.
 Proof.
-  intros He [a b c d f g h i]. pose proof (dext_cur _ _ He) as Hc.
-  constructor; rewrite ?Hc, ?(ext_in _ _ He); auto.
+  intros He [a b c d f g h i]. pose proof (dext_cur _ _ _ _ _ _ He) as Hc.
+  constructor; rewrite ?Hc, ?(ext_in _ _ _ _ _ _ He); auto.
   - intros d0 Hd0. destruct (b d0 Hd0) as (md & Hmd & Hv & Hx & Hrest).
-    exists md. split; [apply (ext_valid _ _ He); assumption|]. split; [exact Hv|]. split; assumption.
+    exists md. split; [apply (ext_valid _ _ _ _ _ _ He); assumption|]. split; [exact Hv|]. split; assumption.
   - intros k Hk Hki Hkq Hku. apply i; try assumption.
     intros d0 Hd0 md Hmd. destruct (b d0 Hd0) as (md0 & Hmd0 & Hv & Hx & _).
     rewrite Hmd in Hmd0. injection Hmd0 as <-.
-    apply (Hkq d0 Hd0). apply (ext_valid _ _ He); assumption.
+    apply (Hkq d0 Hd0). apply (ext_valid _ _ _ _ _ _ He); assumption.
 Qed.
 
 Lemma covers_add_in s pre fr i :
@@ -351,7 +366,7 @@ Lemma covers_add_in s pre fr i :
          (add_read fr (EIn i) (f_dur (d_in s i)) (f_changed (d_in s i))).
 Proof.
   intros HI [a b c d e f g h].
-  pose proof (inv_in_le _ _ _ _ _ HI i) as Hle.
+  pose proof (inv_in_le _ _ _ _ _ _ HI i) as Hle.
   unfold add_read, dur_min, rev_max.
   constructor; cbn [fr_dur fr_changed fr_edges fr_untracked].
   - intros j Hj. apply in_app_iff in Hj. destruct Hj as [Hj | [Hj | []]].
@@ -387,8 +402,8 @@ Lemma covers_add_q s pre fr d md :
   covers s (pre ++ [RQ d]) (add_read fr (EQ d) (m_dur md) (m_changed md)).
 Proof.
   intros HI [a b c dd e f g h] Hmd Hv Hx.
-  pose proof (inv_memo _ _ _ _ _ HI d md Hmd) as Hok.
-  pose proof (mo_order _ _ _ _ _ _ _ Hok) as (_ & Hcv & Hvc).
+  pose proof (inv_memo _ _ _ _ _ _ HI d md Hmd) as Hok.
+  pose proof (mo_order _ _ _ _ _ _ _ _ Hok) as (_ & Hcv & Hvc).
   unfold add_read, dur_min, rev_max.
   constructor; cbn [fr_dur fr_changed fr_edges fr_untracked].
   - intros j Hj. apply in_app_iff in Hj. destruct Hj as [Hj | [Hj | []]]; [|discriminate].
@@ -427,11 +442,11 @@ Proof.
   unfold add_untracked, D_LOW.
   constructor; cbn [fr_dur fr_changed fr_edges fr_untracked].
   - intros j Hj. apply in_app_iff in Hj. destruct Hj as [Hj | [Hj | []]].
-    + destruct (a j Hj) as (A & B & C). conj; auto; [apply (inv_in_le _ _ _ _ _ HI) | lia].
+    + destruct (a j Hj) as (A & B & C). conj; auto; [apply (inv_in_le _ _ _ _ _ _ HI) | lia].
     + subst x. destruct Hx as [Hx | (c0 & Hx)]; discriminate.
   - intros d0 Hd0. apply in_app_iff in Hd0. destruct Hd0 as [Hd0 | [Hd0 | []]].
     + destruct (b d0 Hd0) as (md0 & A & B & C & D0 & E0 & F).
-      pose proof (mo_order _ _ _ _ _ _ _ (inv_memo _ _ _ _ _ HI d0 md0 A)).
+      pose proof (mo_order _ _ _ _ _ _ _ _ (inv_memo _ _ _ _ _ _ HI d0 md0 A)).
       exists md0. conj; auto; try lia.
     + subst x. destruct Hx as [Hx | (c0 & Hx)]; discriminate.
   - intros y Hy Hk. conj; reflexivity.
@@ -464,7 +479,7 @@ Proof.
   - (* RdIn *)
     apply wp_bind, wp_get.
     assert (Hval : e_in (envat c0) i = f_val (d_in s i)).
-    { cbn. apply (inv_in _ _ _ _ _ HI); [rewrite <- Hc; apply (inv_in_le _ _ _ _ _ HI) | lia]. }
+    { cbn. apply (inv_in _ _ _ _ _ _ HI); [rewrite <- Hc; apply (inv_in_le _ _ _ _ _ _ HI) | lia]. }
     cbn [trace run] in Htr, HE. rewrite Hval in Htr, HE.
     apply (IH (f_val (d_in s i)) (pre ++ [RIn i]) _ s Hc).
     + rewrite <- app_assoc. exact Htr.
@@ -480,7 +495,7 @@ Proof.
     { intros p Hp. specialize (Hst p Hp). lia. }
     intros [[v dd] cd] s1 (HI1 & He1 & Ht1 & Hs1 & Hv & (md & Hmd & Hvd & Hxd & Hdd & Hcd)).
     cbn [fst snd] in *.
-    pose proof (dext_cur _ _ He1) as Hc1.
+    pose proof (dext_cur _ _ _ _ _ _ He1) as Hc1.
     assert (Hval : e_q (envat c0) d = v).
     { cbn. rewrite Hv, Hc. reflexivity. }
     cbn [trace run] in Htr, HE. rewrite Hval in Htr, HE.
@@ -504,7 +519,7 @@ Proof.
   - (* RdCell *)
     apply wp_bind, wp_get.
     assert (Hval : e_cell (envat c0) c = d_cell s c).
-    { cbn. rewrite <- Hc. apply (inv_cell _ _ _ _ _ HI). }
+    { cbn. rewrite <- Hc. apply (inv_cell _ _ _ _ _ _ HI). }
     cbn [trace run] in Htr, HE. rewrite Hval in Htr, HE.
     apply (IH (d_cell s c) (pre ++ [RCell c]) _ s Hc).
     + rewrite <- app_assoc. exact Htr.
@@ -551,7 +566,7 @@ Lemma store_fresh_ok q s0 s2 v fr ch old :
   d_memo (store s2 q m) q = Some m.
 Proof.
   intros HI2 He Ht Hcv Hv Hold Hnv Hch m.
-  destruct (fresh_store_ok prog rank Hrank NF Hbound H D s2 q fr v ch old HI2 Hcv Hv Hold Hnv Hch)
+  destruct (fresh_store_ok prog rank Hrank NF Hbound fm H D s2 q fr v ch old HI2 Hcv Hv Hold Hnv Hch)
     as [HI3 He3].
   split; [exact HI3|]. split; [eapply dext_trans; eassumption|]. split.
   { eapply dtouch_trans with (k1 := rank q) (k2 := S (rank q));
@@ -576,10 +591,10 @@ Proof.
   - apply (E_unfold prog rank Hrank NF Hbound).
   - intros d Hd. pose proof (Hrank q d Hd). split; lia.
   - exact HI1.
-  - apply covers_frame0. apply (inv_cur _ _ _ _ _ HI1).
+  - apply covers_frame0. apply (inv_cur _ _ _ _ _ _ HI1).
   - rewrite Hst01. exact Hst.
   - intros [v fr] s2 (HI2 & He2 & Ht2 & Hs2 & Hv & Hcv). cbn [fst snd] in *.
-    pose proof (dext_cur _ _ He2) as Hc2. rewrite Hcur01 in Hc2.
+    pose proof (dext_cur _ _ _ _ _ _ He2) as Hc2. rewrite Hcur01 in Hc2.
     apply wp_bind, wp_get.
     assert (He02 : dext s s2) by (eapply dext_trans; eassumption).
     assert (Ht02 : dtouch_below s s2 (rank q)).
@@ -656,7 +671,7 @@ Proof.
   apply wp_bind. apply claim_ok; [exact Hst|].
   set (s1 := set_stack s (q :: d_stack s)).
   assert (Hce : dcore_eq s s1) by apply dcore_eq_stack.
-  assert (HI1 : DInv s1) by (apply (DInv_core_eq prog NF H D s); assumption).
+  assert (HI1 : DInv s1) by (apply (DInv_core_eq prog NF fm H D s); assumption).
   assert (He01 : dext s s1) by apply dext_set_stack.
   assert (Hst1 : forall p, In p (d_stack s1) -> (rank q <= rank p)%nat) by (apply stacked; exact Hst).
   apply wp_bind, wp_get. change (d_memo s1 q) with (d_memo s q).
@@ -668,7 +683,7 @@ Proof.
                 match m_val m with Some v => ret (m, v) | None => nofuel end)
                (got s q) (XP s) s2).
   { intros s2 HI2 He2 Ht2 Hs2 Hm2.
-    pose proof (dext_cur _ _ He2) as Hc2. change (cur s1) with (cur s) in Hc2.
+    pose proof (dext_cur _ _ _ _ _ _ He2) as Hc2. change (cur s1) with (cur s) in Hc2.
     apply wp_bind.
     eapply wp_conseq; [apply (execute_ok L n q s2 (d_memo s q) HF Hn HI2 Hm2) | |].
     - intros m0 A B. apply Hnv; [exact A | congruence].
@@ -679,7 +694,7 @@ Proof.
       set (s4 := set_stack s3 (tl (d_stack s3))).
       assert (Hce4 : dcore_eq s3 s4) by apply dcore_eq_stack.
       unfold got; cbn [fst snd].
-      split; [apply (DInv_core_eq prog NF H D s3); assumption|].
+      split; [apply (DInv_core_eq prog NF fm H D s3); assumption|].
       split; [eapply dext_trans; [exact He01|]; eapply dext_trans; [exact He2|];
               eapply dext_trans; [exact He3 | apply dext_set_stack]|].
       split.
@@ -703,7 +718,7 @@ Proof.
            apply wp_bind. unfold release. apply wp_modify. apply wp_ret.
            set (s4 := set_stack s2 (tl (d_stack s2))).
            unfold got; cbn [fst snd].
-           split; [apply (DInv_core_eq prog NF H D s2); [apply dcore_eq_stack | exact HI2]|].
+           split; [apply (DInv_core_eq prog NF fm H D s2); [apply dcore_eq_stack | exact HI2]|].
            split; [eapply dext_trans; [exact He01|]; eapply dext_trans; [exact He2 | apply dext_set_stack]|].
            split.
            { eapply dtouch_trans with (k1 := 0%nat) (k2 := S (rank q));
@@ -713,7 +728,7 @@ Proof.
            split; [cbn; rewrite Hs2; reflexivity|].
            split; [exact Hm'|]. split; [exact Hv'|]. split; [congruence|].
            change (cur s1) with (cur s) in HE. rewrite HE.
-           apply (mo_val _ _ _ _ _ _ _ (inv_memo _ _ _ _ _ HI q m Hm)); exact Hv.
+           apply (mo_val _ _ _ _ _ _ _ _ (inv_memo _ _ _ _ _ _ HI q m Hm)); exact Hv.
         -- apply Hexec; try assumption. rewrite (Hfalse eq_refl). exact Hm.
       * intros p s2 Hx. eapply XP_trans; eassumption.
     + apply wp_bind, wp_ret.
@@ -744,15 +759,15 @@ Proof.
                                   | None => s' = s /\ not_valid_with_value s q
                                   end) (XP s) s).
       { intros u Hu Hne. apply wp_bind.
-        eapply wp_conseq; [apply (update_shallow_ok q m s u s (dext_refl s) HI Hm Hu Hne) | |intros; assumption].
+        eapply wp_conseq; [apply (update_shallow_ok q m s u s (dext_refl _ _ _ _ s) HI Hm Hu Hne) | |intros; assumption].
         intros m' s' (A & B & C & D0 & Hm' & Hv' & Hval' & _ & _ & HE).
         apply wp_ret. unfold got; cbn [fst snd]. conj; auto; try congruence.
-        rewrite HE. apply (mo_val _ _ _ _ _ _ _ (inv_memo _ _ _ _ _ HI q m Hm)); exact Hv. }
+        rewrite HE. apply (mo_val _ _ _ _ _ _ _ _ (inv_memo _ _ _ _ _ _ HI q m Hm)); exact Hv. }
       destruct (shallow_verify s m) eqn:Hsh.
       * apply Hgot; [reflexivity | discriminate].
       * apply Hgot; [reflexivity | discriminate].
       * apply wp_ret. split; [reflexivity|].
-        pose proof (shallow_cases s m) as Hc. rewrite Hsh in Hc.
+        pose proof (shallow_cases s m) as Hc. rewrite Hsh in Hc. destruct Hc as [Hc _].
         eapply not_valid_of_ne; eassumption.
     + apply wp_ret. split; [reflexivity|]. intros m0 Hm0 _. congruence.
   - apply wp_ret. split; [reflexivity|]. intros m0 Hm0. congruence.
@@ -783,7 +798,7 @@ Proof.
     set (s3 := set_lru s2 _).
     assert (Hce : dcore_eq s2 s3) by apply dcore_eq_lru.
     unfold fetch_post, memo_qres; cbn [fst snd].
-    split; [apply (DInv_core_eq prog NF H D s2); assumption|].
+    split; [apply (DInv_core_eq prog NF fm H D s2); assumption|].
     split; [eapply dext_trans; [exact B | apply dext_of_core_eq; [exact Hce | reflexivity | auto]]|].
     split.
     { eapply dtouch_trans with (k1 := S (rank q)) (k2 := 0%nat);
@@ -816,7 +831,7 @@ Proof.
   apply wp_bind. unfold init_family. apply wp_modify.
   destruct (init_step s (fst q)) as (Hce0 & He0 & Hst0 & _).
   set (s0 := set_init s (updN (d_init s) (fst q) true)) in *.
-  assert (HI0 : DInv s0) by (apply (DInv_core_eq prog NF H D s); assumption).
+  assert (HI0 : DInv s0) by (apply (DInv_core_eq prog NF fm H D s); assumption).
   eapply wp_conseq; [apply (fetch_rest_ok L n HF HM q s0 Hn HI0) | |].
   - intros p Hp. apply Hst. rewrite <- Hst0. exact Hp.
   - intros r s' (A & B & C & D0 & Hv & Hm). unfold fetch_post.
@@ -836,7 +851,7 @@ Proof.
   apply wp_bind. apply claim_ok; [exact Hst|].
   set (s1 := set_stack s (q :: d_stack s)).
   assert (Hce : dcore_eq s s1) by apply dcore_eq_stack.
-  assert (HI1 : DInv s1) by (apply (DInv_core_eq prog NF H D s); assumption).
+  assert (HI1 : DInv s1) by (apply (DInv_core_eq prog NF fm H D s); assumption).
   assert (He01 : dext s s1) by apply dext_set_stack.
   assert (Hst1 : forall p, In p (d_stack s1) -> (rank q <= rank p)%nat) by (apply stacked; exact Hst).
   apply wp_bind, wp_get. change (d_memo s1 q) with (d_memo s q).
@@ -848,7 +863,7 @@ Proof.
   { intros b s2 HI2 He2 Ht2 Hs2 Hb.
     apply wp_bind. unfold release. apply wp_modify. apply wp_ret.
     unfold mca_post.
-    split; [apply (DInv_core_eq prog NF H D s2); [apply dcore_eq_stack | exact HI2]|].
+    split; [apply (DInv_core_eq prog NF fm H D s2); [apply dcore_eq_stack | exact HI2]|].
     split; [eapply dext_trans; [exact He01|]; eapply dext_trans; [exact He2 | apply dext_set_stack]|].
     split.
     { eapply dtouch_trans with (k1 := 0%nat) (k2 := S (rank q));
@@ -868,7 +883,7 @@ Proof.
       * specialize (Hfalse eq_refl). change (d_memo s1 q) with (d_memo s q) in Hfalse.
         destruct (m_val old) as [ov|] eqn:Hov.
         -- apply wp_bind.
-           pose proof (dext_cur _ _ He2) as Hc2. change (cur s1) with (cur s) in Hc2.
+           pose proof (dext_cur _ _ _ _ _ _ He2) as Hc2. change (cur s1) with (cur s) in Hc2.
            eapply wp_conseq; [apply (execute_ok L n q s2 (Some old) HF Hn HI2) | |].
            ++ congruence.
            ++ intros m0 A B. injection A as <-. apply Hnv; [exact Hm | congruence].
@@ -902,7 +917,7 @@ Proof.
               wp (m' <- update_shallow q m u ;; ret (changed_after (m_changed m') since))
                  (mca_post s q since) (XP s) s).
     { intros u Hu Hne. apply wp_bind.
-      eapply wp_conseq; [apply (update_shallow_ok q m s u s (dext_refl s) HI Hm Hu Hne) | |intros; assumption].
+      eapply wp_conseq; [apply (update_shallow_ok q m s u s (dext_refl _ _ _ _ s) HI Hm Hu Hne) | |intros; assumption].
       intros m' s' (A & B & C & D0 & Hm' & Hv' & _ & _ & Hch' & _).
       apply wp_ret. unfold mca_post. conj; auto.
       intros Hca. apply changed_after_false in Hca. exists m'. conj; auto. }
@@ -910,7 +925,7 @@ Proof.
     + apply Hgot; [reflexivity | discriminate].
     + apply Hgot; [reflexivity | discriminate].
     + apply (mca_cold_ok L n q since s HF HM Hn HI Hst).
-      pose proof (shallow_cases s m) as Hc. rewrite Hsh in Hc.
+      pose proof (shallow_cases s m) as Hc. rewrite Hsh in Hc. destruct Hc as [Hc _].
       eapply not_valid_of_ne; eassumption.
   - apply wp_ret. unfold mca_post.
     split; [exact HI|]. split; [apply dext_refl|]. split; [apply dtouch_refl|].
